@@ -14,7 +14,7 @@ from ..cfg import CFG
 from ..consteval import ConstEval
 from ..core import (AnalysisError, ancestors, ap, atoms, conditions, call_attr, calls, facts, find_calls, handler_names,
                     handler_reraises, is_none_test, norm, set_parents, src, stores, try_contexts, walk)
-from .common import (class_methods_reachable, has_path_fact, loops_over, spec_symbol, struct_fmt_of_prim,
+from .common import (as_pair, class_methods_reachable, has_path_fact, loops_over, spec_symbol, struct_fmt_of_prim,
                      store_index, call_index)
 
 
@@ -582,11 +582,12 @@ def r4(ctx):
     pack_names = set()
     for k, v in zip(specs.keys, specs.values):
         if (ap(k) or "").split(".")[-1] in ("MVT_VARIABLE", "MVT_FIXED"):
-            ctx.require(isinstance(v, ast.Tuple) and len(v.elts) == 2 and isinstance(v.elts[1], ast.Name),
+            pair = as_pair(repo, packer.module, v)
+            ctx.require(pair is not None and isinstance(pair[1], ast.Name),
                         f"SPECS[{src(k)}] is not an (unpacker, packer-name) pair")
-            ctx.ob("C02.R4", f"SPECS[{(ap(k) or '').split('.')[-1]}] unpacker keeps the bytes", ap(v.elts[0]) == "bytes",
-                   ctx.w(packer.module, v), f"unpacker is {norm(v.elts[0])}")
-            pack_names.add(v.elts[1].id)
+            ctx.ob("C02.R4", f"SPECS[{(ap(k) or '').split('.')[-1]}] unpacker keeps the bytes", ap(pair[0]) == "bytes",
+                   ctx.w(packer.module, v), f"unpacker is {norm(pair[0])}")
+            pack_names.add(pair[1].id)
     ctx.require(len(pack_names) == 1, f"MVT_VARIABLE/MVT_FIXED packers: {sorted(pack_names)}")
     ps = repo.fn(next(iter(pack_names)), PACK)
     pparam = ps.node.args.args[0].arg
